@@ -39,3 +39,12 @@ claim(
     "abstract interpretation to rational normal forms over an n-d array domain; factor-quotient test per entry",
     "DESIGN.md §5 C17",
 )
+
+claim(
+    "C19",
+    "other",
+    "Decides on a symbolic voxel array of symbolic shape: the straight-through estimator returns the discrete value with derivative exactly 1 w.r.t. the continuous input and 0 w.r.t. the discrete one; the integer branch is clip(round(x),0,M-1) for M in {2,3,5}; the isotropic inverse-permittivity branch returns per voxel argmin_m |x-1/eps_m| over the materials in library order and keeps the input shape (the shape domain never unifies a symbolic spatial size with the material count). Tie-breaking and float rounding are not decided.",
+    TB + "; sa/ndarr.py broadcasting model; dual reading of stop_gradient (frozen atoms)",
+    "abstract interpretation over a symbolic-shape array domain; symbolic differentiation of the normal form",
+    "DESIGN.md §5 C19",
+)
